@@ -1187,3 +1187,211 @@ Proof.
   - exact x_wf.
   - repeat constructor.
 Qed.
+
+(* ================================================================== *)
+(* sort.Search (binary search) against the linear-scan model dv_locs    *)
+(* ================================================================== *)
+(* DocValues.dv_locs scans for the first entry with DocNum >= docNum; Go runs
+   sort.Search.  On an ascending header they agree, and the repaired reader
+   only ever searches complete (ascending) headers: dvf_visit_bin_eq. *)
+Definition hsorted (h : list (N * N)) : Prop := StronglySorted (fun a b => fst a < fst b) h.
+
+Lemma div2_bounds a : (2 * Nat.div2 a <= a < 2 * Nat.div2 a + 2)%nat.
+Proof.
+  pose proof (Nat.div2_odd a) as H. destruct (Nat.odd a); cbn [Nat.b2n] in H; lia.
+Qed.
+
+Lemma search_loop_spec (f : nat -> bool) (n : nat) :
+  (forall x y, (x <= y < n)%nat -> f x = true -> f y = true) ->
+  forall fuel i j, (j - i < fuel)%nat -> (i <= j <= n)%nat ->
+    (forall x, (x < i)%nat -> f x = false) -> (forall x, (j <= x < n)%nat -> f x = true) ->
+    (i <= search_loop fuel f i j <= j)%nat /\
+    (forall x, (x < search_loop fuel f i j)%nat -> f x = false) /\
+    (forall x, (search_loop fuel f i j <= x < n)%nat -> f x = true).
+Proof.
+  intros Hm. induction fuel as [| fu IH]; intros i j Hf Hij Hlo Hhi; [lia |].
+  cbn [search_loop]. destruct (Nat.ltb_spec i j) as [Hlt | Hge].
+  - pose proof (div2_bounds (i + j)) as Hh. set (h := Nat.div2 (i + j)) in *.
+    destruct (f h) eqn:Fh.
+    + destruct (IH i h) as (A & B & C); try lia; try assumption.
+      { intros x Hx. apply (Hm h x); [lia | exact Fh]. }
+      split; [lia |]. split; assumption.
+    + destruct (IH (S h) j) as (A & B & C); try lia; try assumption.
+      { intros x Hx. destruct (f x) eqn:Fx; [| reflexivity].
+        rewrite (Hm x h) in Fh; [discriminate | lia | exact Fx]. }
+      split; [lia |]. split; assumption.
+  - split; [lia |]. split; [exact Hlo |]. intros x Hx. apply Hhi. lia.
+Qed.
+
+Lemma nthN_some_lt {A} (l : list A) : forall x a, nthN l x = Some a -> (x < length l)%nat.
+Proof.
+  induction l as [| y l IH]; intros x a H; [destruct x; discriminate |].
+  destruct x as [| x]; cbn [nthN length] in *; [lia |]. apply IH in H. lia.
+Qed.
+Lemma nthN_lt_some {A} (l : list A) : forall x, (x < length l)%nat -> exists a, nthN l x = Some a.
+Proof.
+  induction l as [| y l IH]; intros x H; cbn [length] in H; [lia |].
+  destruct x as [| x]; cbn [nthN]; [eexists; reflexivity | apply IH; lia].
+Qed.
+Lemma nthN_In {A} (l : list A) : forall x a, nthN l x = Some a -> In a l.
+Proof.
+  induction l as [| y l IH]; intros x a H; [destruct x; discriminate |].
+  destruct x as [| x]; cbn [nthN] in H; [injection H as <-; left; reflexivity | right; eapply IH; exact H].
+Qed.
+
+Lemma hsorted_nth h : hsorted h -> forall x y a b,
+  (x < y)%nat -> nthN h x = Some a -> nthN h y = Some b -> fst a < fst b.
+Proof.
+  induction 1 as [| e h Hs IH Hf]; intros x y a b Hxy Ha Hb; [destruct x; discriminate |].
+  destruct y as [| y]; [lia |]. cbn [nthN] in Hb.
+  destruct x as [| x]; cbn [nthN] in Ha.
+  - injection Ha as <-. rewrite Forall_forall in Hf. apply Hf. eapply nthN_In. exact Hb.
+  - apply (IH x y); [lia | exact Ha | exact Hb].
+Qed.
+
+(* dv_locs in terms of ANY index r that separates "DocNum < d" from "DocNum >= d" *)
+Lemma dv_locs_char d : forall h prevEnd r,
+  (forall x, (x < r)%nat -> exists dd e, nthN h x = Some (dd, e) /\ dd < d) ->
+  (r = length h \/ exists dd e, nthN h r = Some (dd, e) /\ d <= dd) ->
+  dv_locs h prevEnd d
+  = match nthN h r with
+    | Some (dd, e) =>
+        if dd =? d then
+          Some (match r with
+                | O => prevEnd
+                | S r' => match nthN h r' with Some (_, e') => e' | None => 0 end
+                end, e)
+        else None
+    | None => None
+    end.
+Proof.
+  induction h as [| [d0 e0] h IH]; intros prevEnd r Hlo Hhi.
+  - destruct r as [| r]; [reflexivity |]. destruct (Hlo O) as (dd & e & H & _); [lia | discriminate].
+  - cbn [dv_locs]. destruct r as [| r].
+    + destruct Hhi as [Hhi | (dd & e & H & Hle)]; [discriminate |].
+      cbn [nthN] in H. injection H as <- <-. cbn [nthN].
+      destruct (N.leb_spec d d0); [reflexivity | lia].
+    + destruct (Hlo O) as (dd & e & H & Hlt); [lia |]. cbn [nthN] in H. injection H as <- <-.
+      destruct (N.leb_spec d d0); [lia |].
+      rewrite (IH e0 r).
+      * cbn [nthN]. destruct (nthN h r) as [[dd e] |]; [| reflexivity].
+        destruct (dd =? d); [| reflexivity]. destruct r; reflexivity.
+      * intros x Hx. destruct (Hlo (S x)) as (dd & e & H' & Hlt'); [lia |]. exists dd, e. split; assumption.
+      * destruct Hhi as [Hhi | (dd & e & H' & Hle)]; [left; cbn [length] in Hhi; lia |].
+        right. exists dd, e. split; assumption.
+Qed.
+
+Theorem dv_locs_bin_sorted h d : hsorted h -> dv_locs_bin h d = dv_locs h 0 d.
+Proof.
+  intros Hs. unfold dv_locs_bin, sort_search.
+  set (f := fun i : nat => match nthN h i with Some (d0, _) => d <=? d0 | None => false end).
+  assert (Hm : forall x y, (x <= y < length h)%nat -> f x = true -> f y = true).
+  { intros x y Hxy Fx. unfold f in *.
+    destruct (nthN h x) as [[dx ex] |] eqn:Ex; [| discriminate].
+    destruct (nthN_lt_some h y) as [[dy ey] Ey]; [lia |]. rewrite Ey.
+    destruct (Nat.eq_dec x y) as [-> | Hne]; [rewrite Ex in Ey; injection Ey as <- <-; exact Fx |].
+    pose proof (hsorted_nth h Hs x y _ _ ltac:(lia) Ex Ey) as Hlt. cbn [fst] in Hlt.
+    apply N.leb_le in Fx. apply N.leb_le. lia. }
+  assert (SP := search_loop_spec f (length h) Hm (S (length h)) 0%nat (length h)).
+  destruct SP as (A & B & C); [lia | lia | intros x Hx; lia | intros x Hx; lia |].
+  set (r := search_loop (S (length h)) f 0 (length h)) in *.
+  symmetry. apply dv_locs_char.
+  - intros x Hx. destruct (nthN_lt_some h x) as [[dd e] E]; [lia |].
+    exists dd, e. split; [exact E |]. specialize (B x Hx). unfold f in B. rewrite E in B.
+    apply N.leb_gt in B. exact B.
+  - destruct (Nat.eq_dec r (length h)) as [E | Hne]; [left; exact E |]. right.
+    destruct (nthN_lt_some h r) as [[dd e] E]; [lia |]. exists dd, e. split; [exact E |].
+    specialize (C r ltac:(lia)). unfold f in C. rewrite E in C. apply N.leb_le in C. exact C.
+Qed.
+
+Theorem dv_visit_loaded_bin_sorted r field d :
+  hsorted (dr_header r) -> dv_visit_loaded_bin r field d = dv_visit_loaded r field d.
+Proof.
+  intros Hs. unfold dv_visit_loaded_bin, dv_visit_loaded. rewrite dv_locs_bin_sorted by exact Hs. reflexivity.
+Qed.
+
+(* chunk headers written by the builder are ascending *)
+Lemma build_fst : forall docs acc, map fst (fst (dv_chunk_build docs acc)) = map fst docs.
+Proof.
+  induction docs as [| [d b] docs IH]; intros acc; [reflexivity |].
+  cbn [dv_chunk_build]. specialize (IH (acc + lenN b)).
+  destruct (dv_chunk_build docs (acc + lenN b)) as [h dat]. cbn [fst map] in *. f_equal. exact IH.
+Qed.
+
+Lemma sorted_map_fst {B C} (l : list (N * B)) (l' : list (N * C)) :
+  map fst l = map fst l' ->
+  StronglySorted (fun a b => fst a < fst b) l -> StronglySorted (fun a b => fst a < fst b) l'.
+Proof.
+  revert l'. induction l as [| a l IH]; intros l' E Hs.
+  - destruct l'; [constructor | discriminate].
+  - destruct l' as [| a' l']; [discriminate |]. cbn [map] in E. injection E as E1 E2.
+    inversion Hs as [| ? ? Hs' Hf]; subst. constructor; [apply IH; assumption |].
+    rewrite Forall_forall in *. intros x Hx.
+    assert (Hin : In (fst x) (map fst l)) by (rewrite E2; apply in_map; exact Hx).
+    apply in_map_iff in Hin. destruct Hin as (y & Ey & Hy). rewrite <- E1, <- Ey. apply Hf. exact Hy.
+Qed.
+
+Lemma chunk_header_sorted docs : asc docs -> hsorted (dvc_header (dv_chunk_of docs)).
+Proof.
+  intros Ha. rewrite dvc_header_of. unfold hsorted.
+  apply (sorted_map_fst docs); [symmetry; apply build_fst | exact Ha].
+Qed.
+
+Lemma dv_chunks_sorted nch (enc : list (N * bytes)) :
+  asc enc -> Forall (fun ck => hsorted (dvc_header ck)) (dv_chunks nch enc).
+Proof.
+  intros Ha. unfold dv_chunks. apply Forall_forall. intros ck Hck.
+  apply in_map_iff in Hck. destruct Hck as (c & <- & _).
+  apply chunk_header_sorted. apply DocValues_Proofs.sorted_filter. exact Ha.
+Qed.
+
+(* The repaired reader with Go's binary search is the repaired reader of
+   dvf_visit: whenever the cached header is searched it is a complete chunk
+   header.  (Any oracle; any state whose cached chunk, if any, is consistent.) *)
+Theorem dvf_visit_bin_eq (chunks : list DvChunk) ok s field n :
+  Forall (fun ck => hsorted (dvc_header ck)) chunks ->
+  reader_ok chunks (df_r s) -> n / dv_chunk_docs <> maxInt64 ->
+  dvf_visit_bin ok s field n = dvf_visit ok s field n.
+Proof.
+  intros Hall [Hc Hcur] Hsent. unfold dvf_visit_bin, dvf_visit, dvf_visit_with.
+  rewrite Forall_forall in Hall.
+  destruct (N.eqb_spec (n / dv_chunk_docs) (dr_cur (df_r s))) as [E | NE].
+  - cbn [fbind]. destruct Hcur as [Hcur | (c & Hc1 & Hc2 & _)]; [congruence |].
+    rewrite dv_visit_loaded_bin_sorted; [reflexivity |].
+    rewrite Hc2. apply Hall. eapply nthN_In. exact Hc1.
+  - pose proof (dvf_load_sim true ok s (n / dv_chunk_docs)) as LS. fold (dvf_load ok) in LS.
+    destruct (dvf_load ok s (n / dv_chunk_docs)) as [s1 v | s1 |]; cbn [fbind]; try reflexivity.
+    rewrite dv_visit_loaded_bin_sorted; [reflexivity |].
+    unfold dv_load in LS. rewrite Hc in LS.
+    destruct (nthN chunks (N.to_nat (n / dv_chunk_docs))) as [ck |] eqn:Ek; [| discriminate].
+    destruct (dvc_header ck) as [| e0 hd] eqn:Hh; injection LS as <-; cbn [dr_header].
+    + constructor.
+    + rewrite <- Hh. apply Hall. eapply nthN_In. exact Ek.
+Qed.
+
+(* hence (A2) holds verbatim for the reader that searches as Go does *)
+Theorem dvf_admissible_bin (field : bytes) (numDocs : N) (es : list (N * list bytes))
+        (ok : oracle) (k0 : nat) (visits : list N) :
+  numDocs <= two64 -> wf_entries numDocs es -> Forall (fun n => n < numDocs) visits ->
+  Forall2 (fun n o => o = OErr \/ o = OOk (spec_dv field es n)) visits
+          (dvf_run_with (dvf_visit_bin ok)
+                        (dvf_open (dv_chunks (nchunks_for numDocs) (enc_entries es)) k0) field visits).
+Proof.
+  intros Hb Hwf Hv.
+  set (chunks := dv_chunks (nchunks_for numDocs) (enc_entries es)).
+  assert (Hall : Forall (fun ck => hsorted (dvc_header ck)) chunks).
+  { apply dv_chunks_sorted. apply asc_enc. apply Hwf. }
+  assert (G : forall visits s, Forall (fun n => n < numDocs) visits -> reader_ok chunks (df_r s) ->
+              Forall2 (fun n o => o = OErr \/ o = OOk (spec_dv field es n)) visits
+                      (dvf_run_with (dvf_visit_bin ok) s field visits)).
+  { clear visits Hv. induction visits as [| n visits IH]; intros s Hv Hr; [constructor |].
+    inversion Hv as [| ? ? Hn Hv']; subst. cbn [dvf_run_with].
+    rewrite (dvf_visit_bin_eq chunks ok s field n Hall Hr)
+      by (unfold two64 in Hb; unfold dv_chunk_docs, maxInt64; lia).
+    pose proof (dvf_visit_step field numDocs es Hb Hwf ok s n Hn Hr) as St.
+    destruct (dvf_visit ok s field n) as [s' out | s' |].
+    - destruct St as [-> Hr']. constructor; [right; reflexivity | apply IH; assumption].
+    - constructor; [left; reflexivity | apply IH; assumption].
+    - destruct St. }
+  apply G; [exact Hv | apply dv_open_ok].
+Qed.
